@@ -83,6 +83,7 @@ class Cls:
     s.text = ''
     s.internal = []             # whole-signal statements (a suffix, b suffix) between own in ports and own wires / outs
     s.ncomp = 1
+    s.outdeps = {}              # out suffix -> own in suffixes it hangs on through connections (whole, slice, field, children)
 
 def gen_class(rng, tag, counter, depth, maxdepth, classes, want):
   """one component class (children first). `want`: set of variants still to place ('loop', 'dup', 'redundant')."""
@@ -130,6 +131,7 @@ def gen_class(rng, tag, counter, depth, maxdepth, classes, want):
         for (nm, T) in K.ins: add(f'{P}.{nm}', T, False, True, P)
         for (nm, T, dep) in K.outs:
           add(f'{P}.{nm}', T, True, False, P)
+          for d in K.outdeps.get(nm, ()): uf.union(f'{P}.{nm}', f'{P}.{d}')
           if dep is not None: uf.union(f'{P}.{nm}', f'{P}.{dep}')
   # ---- every sink gets one source
   srcof = {}
@@ -147,7 +149,7 @@ def gen_class(rng, tag, counter, depth, maxdepth, classes, want):
   force_loop = None
   if 'loop' in want and depth <= 1:
     cands = [(P, K) for (P, K) in insts if any(d is None and any(T2 == T for (_, T2) in K.ins) for (_, T, d) in K.outs)]
-    if cands and rng.random() < 0.7:
+    if cands and rng.random() < 0.9:
       P, K = rng.choice(cands)
       o = rng.choice([(nm, T) for (nm, T, d) in K.outs if d is None and any(T2 == T for (_, T2) in K.ins)])
       i = rng.choice([nm for (nm, T2) in K.ins if T2 == o[1]])
@@ -179,11 +181,11 @@ def gen_class(rng, tag, counter, depth, maxdepth, classes, want):
       L.insert(1, f'    s.{nm} = InPort( {TY[T]} )'); C.ins.append((nm, T)); add(f's.{nm}', T, True, False)
       stmts.append(spell(sk, f's.{nm}')); uf.union(sk, f's.{nm}'); srcof[sk] = f's.{nm}'
   # ---- variants
-  if 'dup' in want and insts and rng.random() < 0.5:
+  if 'dup' in want and insts and rng.random() < 0.85:
     cands = [(P, a, b) for (P, K) in insts for (a, b) in K.internal]
     if cands:
       P, a, b = rng.choice(cands); stmts.append(f'    {P}.{a} //= {P}.{b}'); want.discard('dup')
-  if 'redundant' in want and rng.random() < 0.5:
+  if 'redundant' in want and rng.random() < 0.9:
     groups = {}
     for e, nd in nodes.items():
       if e in split or '[' in e.split('.')[-1] and e.endswith(':4]') or e.endswith(':8]'): continue
@@ -197,22 +199,44 @@ def gen_class(rng, tag, counter, depth, maxdepth, classes, want):
   L += stmts
   for n, (sk, rhs) in enumerate(upd):
     L += ['    @update', f'    def up{n}():', f'      {sk} @= {rhs}']
-  # ---- summary for the parent: an out port in the same net as an own in port passes that port through
+  # ---- summary for the parent: an out port in the same net as an own in port passes that port through (`dep`); and every own
+  #      in port an out port hangs on through connections of any kind (slices, fields, children): a parent must not close a loop
+  instd = dict(insts)
+  def whole(e):
+    for sfx in ('[0:4]', '[4:8]', '.x', '.y'):
+      if e.endswith(sfx) and e[:-len(sfx)] in nodes: return e[:-len(sfx)]
+    return e
+  def netroot(e, seen):
+    if e in seen or e not in nodes: return None
+    seen.add(e)
+    if nodes[e]['inst'] is None and e.startswith('s.i'): return e
+    if e in srcof: return netroot(srcof[e], seen) if srcof[e] not in ('const', 'upd') else None
+    P = nodes[e]['inst']
+    if P is not None:
+      d = next((d for (n2, _, d) in instd[P].outs if f'{P}.{n2}' == e), None)
+      return netroot(f'{P}.{d}', seen) if d is not None else None
+    return None
+  def hangs(e, seen):
+    if e in split: return hangs(e + '[0:4]', seen) | hangs(e + '[4:8]', seen)
+    if e in srcof:
+      if e in seen: return set()
+      seen.add(e)
+      return hangs(srcof[e], seen) if srcof[e] not in ('const', 'upd') else set()
+    e = whole(e)
+    if e in seen or e not in nodes: return set()
+    if e in srcof: return hangs(e, seen)
+    seen.add(e)
+    if nodes[e]['inst'] is None: return {e} if e.startswith('s.i') else set()
+    P = nodes[e]['inst']; out = set()
+    for d in instd[P].outdeps.get(e[len(P) + 1:], ()): out |= hangs(f'{P}.{d}', seen)
+    return out
+  C.outdeps = {}
   for o in C.outs:
     e = f's.{o[0]}'
+    C.outdeps[o[0]] = sorted(x[2:] for x in hangs(e, set()))
     if e in split: continue
-    cur, seen = e, set()
-    while cur in srcof and srcof[cur] not in ('const', 'upd') and cur not in seen:
-      seen.add(cur); nxt = srcof[cur]
-      if nxt not in nodes: cur = None; break                   # a slice / field: another net
-      cur = nxt
-      while nodes[cur]['inst'] is not None and cur not in srcof:   # a child's out: through the child if it passes an input through
-        P = nodes[cur]['inst']; K = dict(insts)[P]; nm = cur[len(P) + 1:]
-        dep = next((d for (n2, _, d) in K.outs if n2 == nm), None)
-        if dep is None: break
-        cur = f'{P}.{dep}'
-    if cur is not None and cur in nodes and nodes[cur]['inst'] is None and cur.startswith('s.i') and cur not in srcof:
-      o[2] = cur[2:]
+    r = netroot(e, set())
+    if r is not None: o[2] = r[2:]
   for sk, src in srcof.items():
     if nodes[sk]['inst'] is None and src in nodes and nodes[src]['inst'] is None and src.startswith('s.i') and sk in nodes and '[' not in sk.split('.')[-1].replace('iv[', ''):
       C.internal.append((sk[2:], src[2:]))
@@ -222,10 +246,12 @@ def gen_class(rng, tag, counter, depth, maxdepth, classes, want):
   return C
 
 def gen_design(rng, tag, variant=None):
-  classes, counter = [], itertools.count()
-  want = {variant} if variant else set()
-  maxdepth = rng.choice([1, 1, 2, 2, 2, 3] if variant is None else [1, 2, 2])
-  top = gen_class(rng, tag, counter, 0, maxdepth, classes, want)
+  while True:
+    classes, counter = [], itertools.count()
+    want = {variant} if variant else set()
+    maxdepth = rng.choice([1, 1, 2, 2, 2, 3] if variant is None else [1, 2, 2])
+    top = gen_class(rng, tag, counter, 0, maxdepth, classes, want)
+    if top.ncomp <= 24: break                      # keeps the quick tier inside its budget; larger trees add nothing new
   return HDR + '\n'.join(c.text for c in classes), top.name, {'variant': variant, 'placed': variant is not None and not want, 'ncomp': top.ncomp, 'depth': maxdepth}
 
 # ---------------------------------------------------------------------------------------------
@@ -347,6 +373,8 @@ def inst_name(c, parent):
   hp = repr(c)[len(repr(parent)) + 1:]
   return re.sub(r'\[(\d+)\]', r'__\1', hp)
 
+ORACLE = {'designs': 0, 'nets': 0, 'members_followed_to_writer': 0}
+
 def text_oracle(X, txt):
   """-> list of (kind, detail) breaches"""
   from pymtl3.dsl.Connectable import Const
@@ -362,7 +390,9 @@ def text_oracle(X, txt):
     if mn is None or mn not in mods: return [('instance-missing', {'component': repr(c), 'expected_instance': inst_name(c, p)})]
     modof[c] = mn
   bad = []
+  ORACLE['designs'] += 1
   for (w, mem) in X.nets_real:
+    ORACLE['nets'] += 1
     members = sorted(mem, key=repr)
     spell = {}                                           # (context component, spelling) -> member
     where = {}
@@ -396,6 +426,7 @@ def text_oracle(X, txt):
         nxt = spell.get((c, rhs))
         if nxt is None: break
         cur = nxt
+      if ok: ORACLE['members_followed_to_writer'] += 1
       if not ok:
         bad.append(('member-not-reaching-writer', {'member': repr(x), 'net_writer': repr(w), 'stopped_at': repr(cur)}))
   return bad
@@ -416,7 +447,7 @@ def check_design(ck, src, name, info, lines, meta):
   ck.hist('sconn_elab', 'ok')
   X = Extract(top)
   verdict, txt = translate(top, ck.workdir)
-  ck.hist('sconn_verdict', verdict); ck.hist('sconn_components', min(len(X.comps), 16)); ck.hist('sconn_variant', str(info.get('variant')))
+  ck.hist('sconn_verdict', verdict); ck.hist('sconn_components', min(len(X.comps), 16)); ck.hist('sconn_variant', str(info.get('variant')) + ('' if info.get('variant') is None else ('/placed' if info.get('placed') else '/not-placed')))
   ck.hist('sconn_stmts', min(len(X.stmts) // 5 * 5, 60)); ck.hist('sconn_nets', min(len(X.nets) // 2 * 2, 30))
   nontrivial = len(X.comps) >= 3 or info.get('variant') is not None
   ck.count({'sconn': hash(src) & 0xffffffff}, nontrivial)
@@ -449,6 +480,7 @@ def compare(ck, rep, m):
   d = {r[i]: r[i + 1] for i in range(0, len(r), 2)}
   if d['valid'] != '1': ck.disagreement('SConn precondition ValidOrder (adjacency sets vs statements)', case, rep[:300], 'n/a')
   if d['nodup'] != '1': ck.disagreement('SConn precondition StmtsNodup (a component states one pair twice)', case, rep[:300], 'n/a')
+  if d['netsok'] != '1': ck.disagreement('SConn precondition NetsOk (get_all_value_nets() vs the connected components of the statements)', case, rep[:300], 'n/a')
   # members of every net = what the traversal reaches
   mnets = sorted((int(w), sorted(int(x) for x in ms)) for (w, ms) in d['nets'])
   if mnets != sorted(X.nets):
@@ -500,7 +532,7 @@ def run(ck):
   rng = ck.rng
   import random
   quick = ck.tier == 'quick'
-  n_clean, n_var = (70, 8) if quick else (900, 80)
+  n_clean, n_var = (140, 12) if quick else (1200, 120)
   designs = []
   for _ in range(n_clean): designs.append(gen_design(random.Random(rng.getrandbits(64)), next(_uid)))
   for v in ('loop', 'dup', 'redundant'):
@@ -509,6 +541,7 @@ def run(ck):
   done = 0
   for i in range(0, len(designs), 60): done += run_batch(ck, designs[i:i + 60])
   ck.extra_cov['sconn_designs'] = {'generated': len(designs), 'elaborated_and_compared': done}
+  ck.extra_cov['sconn_text_oracle'] = dict(ORACLE)
 
 def replay(ck, data):
   case = data.get('case') or data
